@@ -4,7 +4,9 @@
 (*   limit     MAX_CONN at the thread's first use (capacity of the thread-local Counter)           *)
 (*   inflight  count of the thread-local Counter = live CounterGuards                             *)
 (*   parked    waker registered in the Counter's LocalWaker by the last not-ready answer (0 none) *)
-(*   calls[c]  the accept future of call c: the handshake script chosen by TLC                     *)
+(*   calls     the unresolved accept futures, oldest first (a call is addressed by its position   *)
+(*             c in this list at the time of the action); per call the handshake script chosen by *)
+(*             TLC                                                                                 *)
 (*               complete(th) | fail(th) (garbage / disconnect: the bytes arrive at th) | stall    *)
 (*             and `el`, the virtual time (ticks) since the call; sleep(tmo) runs next to it       *)
 (*   tmo       configured handshake timeout in ticks                                               *)
@@ -14,10 +16,11 @@
 (* dropped, which the executor does in the same step (Resolve / DropCall).                         *)
 (* The executor is eager: virtual time does not advance while a future that would resolve has not  *)
 (* been polled (Tokio's paused clock advances only when every task is idle).                       *)
-EXTENDS Naturals, FiniteSets, TLC, Json
+EXTENDS Naturals, Sequences, FiniteSets, TLC, Json
 
 CONSTANTS Limits, Ts, NCalls, NWakers,
-          LateSlack,             \* handshake scripts use th \in 0..tmo+LateSlack (th > tmo: completes too late)
+          CompleteTh, FailTh,    \* handshake event times (ticks after the call) TLC chooses from
+          LateSlack,             \* ... kept if th <= tmo+LateSlack (th > tmo: the event comes too late)
           WithPollPending,       \* include polls of futures that are not due (answer Pending) as actions
           TimeoutAfterErrorOnly, \* design FALSE: TRUE = the sleep is looked at only when the handshake future errs
           GuardReleasedAtCall,   \* design FALSE: TRUE = guard dropped in call() instead of moved into the future
@@ -25,20 +28,19 @@ CONSTANTS Limits, Ts, NCalls, NWakers,
           WakeOnRelease,         \* design TRUE: a release that frees a slot wakes the parked waker
           TimeoutFactor          \* design 1: the sleep is tmo * TimeoutFactor
 
-VARIABLES limit, tmo, inflight, parked, refused, calls, ncalled, act
-vars == <<limit, tmo, inflight, parked, refused, calls, ncalled, act>>
-View == <<limit, tmo, inflight, parked, refused, calls, ncalled>>
+VARIABLES limit, tmo, inflight, parked, refused, calls, act
+vars == <<limit, tmo, inflight, parked, refused, calls, act>>
+View == <<limit, tmo, inflight, parked, refused, calls>>
 
 Min(a, b) == IF a <= b THEN a ELSE b
-Idle == [st |-> "new", kind |-> "none", th |-> 0, el |-> 0]
-Done == [st |-> "done", kind |-> "none", th |-> 0, el |-> 0]
 NoAct == [op |-> "init", c |-> 0, w |-> 0, kind |-> "none", th |-> 0, res |-> "", el |-> 0,
           woken |-> 0, unres |-> 0]
-Running == {c \in 1..NCalls : calls[c].st = "run"}
+Running == 1..Len(calls)
+Remove(c) == SubSeq(calls, 1, c - 1) \o SubSeq(calls, c + 1, Len(calls))
 ElCap == 2 * tmo + 2      \* only reached by wrong designs; keeps their graphs finite
 
 Init == /\ limit \in Limits /\ tmo \in Ts /\ inflight = 0 /\ parked = 0 /\ refused = 0
-        /\ calls = [c \in 1..NCalls |-> Idle] /\ ncalled = 0 /\ act = NoAct
+        /\ calls = <<>> /\ act = NoAct
 
 (* ---------------- the mechanism ---------------- *)
 \* AcceptFut::poll: match handshake.poll { Ready(Ok) => ok, Ready(Err) => tls error, Pending => timeout.poll }
@@ -56,14 +58,13 @@ PollReady(w) ==
             /\ UNCHANGED <<parked, refused>>
        ELSE /\ parked' = w /\ refused' = w
             /\ act' = [NoAct EXCEPT !.op = "ready", !.w = w, !.res = "pending", !.unres = inflight]
-  /\ UNCHANGED <<limit, tmo, inflight, calls, ncalled>>
+  /\ UNCHANGED <<limit, tmo, inflight, calls>>
 
 \* Service::call: AcceptFut { handshake, sleep(tmo), guard = conns.get() }; not polled yet
 Call(k, t) ==
-  /\ ncalled < NCalls
-  /\ LET c == ncalled + 1 IN
-       /\ calls' = [calls EXCEPT ![c] = [st |-> "run", kind |-> k, th |-> t, el |-> 0]]
-       /\ ncalled' = c
+  /\ Len(calls) < NCalls
+  /\ LET c == Len(calls) + 1 IN
+       /\ calls' = Append(calls, [kind |-> k, th |-> t, el |-> 0])
        /\ inflight' = (IF GuardReleasedAtCall THEN inflight ELSE inflight + 1)
        /\ act' = [NoAct EXCEPT !.op = "call", !.c = c, !.kind = k, !.th = t,
                                !.unres = (IF GuardReleasedAtCall THEN inflight ELSE inflight + 1)]
@@ -85,35 +86,36 @@ Release(op, c, res, e) ==
 Resolve(c) ==
   /\ c \in Running /\ PollOutcome(calls[c]) # "pending"
   /\ Release("poll", c, PollOutcome(calls[c]), calls[c].el)
-  /\ calls' = [calls EXCEPT ![c] = Done]
-  /\ UNCHANGED <<limit, tmo, ncalled>>
+  /\ calls' = Remove(c)
+  /\ UNCHANGED <<limit, tmo>>
 
 \* the executor polls call c, it is not due
 PollPending(c) ==
   /\ WithPollPending /\ c \in Running /\ PollOutcome(calls[c]) = "pending"
   /\ act' = [NoAct EXCEPT !.op = "poll", !.c = c, !.res = "pending", !.el = calls[c].el, !.unres = inflight]
-  /\ UNCHANGED <<limit, tmo, inflight, parked, refused, calls, ncalled>>
+  /\ UNCHANGED <<limit, tmo, inflight, parked, refused, calls>>
 
 \* the caller abandons call c (drops the unresolved future)
 DropCall(c) ==
   /\ c \in Running
   /\ Release("drop", c, "", calls[c].el)
-  /\ calls' = [calls EXCEPT ![c] = Done]
-  /\ UNCHANGED <<limit, tmo, ncalled>>
+  /\ calls' = Remove(c)
+  /\ UNCHANGED <<limit, tmo>>
 
 \* one tick of virtual time; only when no future would resolve if polled
 Advance ==
   /\ Running # {}
   /\ \A c \in Running : PollOutcome(calls[c]) = "pending" /\ calls[c].el < ElCap
-  /\ calls' = [c \in 1..NCalls |-> IF c \in Running THEN [calls[c] EXCEPT !.el = @ + 1] ELSE calls[c]]
+  /\ calls' = [c \in Running |-> [calls[c] EXCEPT !.el = @ + 1]]
   /\ act' = [NoAct EXCEPT !.op = "advance", !.unres = inflight]
-  /\ UNCHANGED <<limit, tmo, inflight, parked, refused, ncalled>>
+  /\ UNCHANGED <<limit, tmo, inflight, parked, refused>>
 
 \* payload transfer over an accepted stream is abstract: the driver compares bytes (differential)
 EchoOk(c) == /\ act' = [NoAct EXCEPT !.op = "echo", !.c = c, !.res = "ok", !.unres = inflight]
-             /\ UNCHANGED <<limit, tmo, inflight, parked, refused, calls, ncalled>>
+             /\ UNCHANGED <<limit, tmo, inflight, parked, refused, calls>>
 
-Scripts == {<<"stall", 0>>} \cup ({"complete", "fail"} \X (0..(tmo + LateSlack)))
+Scripts == {<<"stall", 0>>} \cup ({"complete"} \X {t \in CompleteTh : t <= tmo + LateSlack})
+                            \cup ({"fail"} \X {t \in FailTh : t <= tmo + LateSlack})
 
 Next == \/ \E w \in 1..NWakers : PollReady(w)
         \/ \E s \in Scripts : Call(s[1], s[2])
@@ -126,7 +128,7 @@ Spec == Init /\ [][Next]_vars
 Due(r) == IF r.kind = "stall" THEN tmo ELSE Min(r.th, tmo)
 PropRes(r) == IF r.kind = "complete" /\ r.th <= tmo THEN "ok"
               ELSE IF r.kind = "fail" /\ r.th <= tmo THEN "tlserr" ELSE "timeout"
-Unresolved == Cardinality(Running)
+Unresolved == Len(calls)
 
 \* never later: virtual time does not pass the due instant of an unresolved call
 C18_ResolvesBy == \A c \in Running : calls[c].el <= Due(calls[c])
